@@ -140,6 +140,14 @@ def run_parallel(jobs, timeout):
     return results
 
 
+def _job_reported_violation(j):
+    try:
+        st = json.load(open(j["out"]))
+    except Exception:
+        return False
+    return any(f.get("violation") for f in st.get("findings", []))
+
+
 def merge_stats(files):
     counters, maxima, distinct, samples, findings = {}, {}, set(), [], []
     for f in files:
@@ -235,6 +243,11 @@ def run_check(chk, tier, seed, replay=None):
     results = run_parallel(jobs, budget)
     timeouts = [j for j, rc in results if rc == "timeout"]
     crashes = [(j, rc) for j, rc in results if rc not in (0, 1, "timeout")]
+    # exit status 1 is what a worker returns after recording a falsified property -- and also what the library's fatal-error path
+    # (masa_exit -> exit(1)) produces when it terminates the harness in the middle of a case. Without a recorded violation it is the latter.
+    for j, rc in results:
+        if rc == 1 and not _job_reported_violation(j):
+            crashes.append((j, "1 (no violation recorded: the library terminated the process, e.g. through its fatal-error path)"))
     counters, maxima, distinct, samples, findings = merge_stats([j["out"] for j in jobs])
 
     known = load_known()
